@@ -215,7 +215,8 @@ C05_WRAP = [
 
 OF_STUBS = ["ProcfsHandle::readlink", "ProcfsHandle::open", "syscalls::statx", "syscalls::openat_follow"]
 O_READLINK = ob("O6.6", PF + "procfs_readlink_body", "ProcfsHandle::readlink, every sub-path <= L: exactly one NO-FOLLOW lookup (ProcfsHandle::open, never open_follow) of that path with exactly O_PATH, then readlinkat(that descriptor, \"\"); descriptor closed", stubs=["ProcfsHandle::open", "ProcfsHandle::open_follow", "syscalls::readlinkat"], cost=3)
-O_OF_LINK = ob("O6.5a", PF + "procfs_open_follow_link", "open_follow on a link, every sub-path <= L / flag word / K: parent = open(base, dir part, O_PATH|O_DIRECTORY); the single following openat(parent, last component, caller flags [+O_DIRECTORY on trailing slash]) is issued only after statx(parent, name) reported the parent's mount id; parent closed", stubs=OF_STUBS, covers_may_be_unsat=["plain open"], cost=7)
+O_OF_LINK = ob("O6.5a", PF + "procfs_open_follow_link", "open_follow on a link, every sub-path <= L / flag word / K: parent = open(base, dir part, O_PATH|O_DIRECTORY); the single following openat(parent, last component, caller flags [+O_DIRECTORY on trailing slash]) is issued only after statx(parent, name) reported the parent's mount id; parent closed", stubs=OF_STUBS, covers_may_be_unsat=["plain open"], tiers=("thorough",), cost=7)
+O_OF_LINK_NOFAULT = ob("O6.5c", PF + "procfs_open_follow_link_nofault", "open_follow on a link, every sub-path <= L / non-creation flag word, the scenario in which no call before the final open FAILS (answers carry arbitrary data: mount ids, masks): the single following openat(parent, last component, caller flags) happens only after statx(parent, name) reported the parent's mount id (else EXDEV, nothing followed); parent closed", stubs=OF_STUBS, covers_may_be_unsat=["plain open", "creation flags refused"], cost=7)
 O_OF_NOTLINK = ob("O6.5b", PF + "procfs_open_follow_notlink", "open_follow on a non-link: exactly the no-follow open of the same (slash-stripped) path, nothing followed", stubs=OF_STUBS, covers_may_be_unsat=["link followed", "over-mounted link refused"], cost=5)
 
 CR = "capi::ret::verif_h_capi_ret::"
@@ -276,7 +277,7 @@ PROPERTIES = {
                        "returns, it leaves open() only after mount-id equality and f_type==procfs were established on that descriptor.",
         "outside": "what a real kernel reports for real over-mounts (statx/fstatfs contracts assumed); racing mounts; that fsopen/open_tree handles are private; the resolver walks themselves (C07)",
         "assumptions": ["ProcfsResolver::resolve returns an arbitrary descriptor or error", "statx/fstatfs answers arbitrary but consistent per descriptor"],
-        "obligations": [O_FETCH_MNT, O_SAME_MNT, O_IS_PROCFS, O_TRY_FROM_FD, O_OPEN_OKPATH, O_OPEN_LOOKUPFAIL, O_OPEN_UNMASKED, O_OF_LINK, O_OF_NOTLINK, O_READLINK],
+        "obligations": [O_FETCH_MNT, O_SAME_MNT, O_IS_PROCFS, O_TRY_FROM_FD, O_OPEN_OKPATH, O_OPEN_LOOKUPFAIL, O_OPEN_UNMASKED, O_OF_LINK, O_OF_LINK_NOFAULT, O_OF_NOTLINK, O_READLINK],
     },
     "C08": {
         "bounds": {"quick": {"MAX_CALLS": 16, "MAX_FDS": 8}, "thorough": {"MAX_CALLS": 16, "MAX_FDS": 8}},
@@ -290,7 +291,7 @@ PROPERTIES = {
         "explanation": "C07 (partial): the creation-flag refusal of both procfs resolvers is decided for every 32-bit flag word; ProcfsHandle::open's forced O_NOFOLLOW for every flag word (O6.4a); the kernel resolver's fixed confinement mask.",
         "outside": "the emulated procfs walk itself ('..', absolute links, final-component table) and equality of outcomes between the two resolvers on a live /proc: the walk (opath_resolve) is a heap-container loop this engine does not finish (DESIGN §1.2)",
         "assumptions": ["opath_resolve replaced by a recording stub in the dispatch harnesses"],
-        "obligations": [O_RP_CREAT_O2, O_RP_CREAT_OP, O_RP_MASK, O_RP_DISPATCH, O_WALK_PLAIN, O_WALK_SYMLINK, O_WALK_SLASH, O_OPEN_OKPATH, O_OPEN_UNMASKED, O_OF_LINK, O_OF_NOTLINK, O_READLINK],
+        "obligations": [O_RP_CREAT_O2, O_RP_CREAT_OP, O_RP_MASK, O_RP_DISPATCH, O_WALK_PLAIN, O_WALK_SYMLINK, O_WALK_SLASH, O_OPEN_OKPATH, O_OPEN_UNMASKED, O_OF_LINK, O_OF_LINK_NOFAULT, O_OF_NOTLINK, O_READLINK],
     },
     "C15": {
         "explanation": "C15: may_follow_link is executed with the two fstat answers, geteuid and the cached sysctl all symbolic at full width; the oracle is a transcription of fs/namei.c:may_follow_link.",
